@@ -2,6 +2,7 @@
 package wk
 
 import (
+	"bufio"
 	"bytes"
 	"encoding/json"
 	"fmt"
@@ -143,6 +144,12 @@ var childSeq struct {
 
 // RunChild re-executes this binary as `child name` with arg marshalled to a file. env adds variables.
 func RunChild(c *Ctx, name string, arg interface{}, timeout time.Duration, env ...string) ChildResult {
+	return RunChildLines(c, name, arg, timeout, nil, env...)
+}
+
+// RunChildLines is RunChild with the child's stdout handed to onLine line by line instead of being kept
+// (a long batch prints a line per case and periodic snapshots: hundreds of megabytes).
+func RunChildLines(c *Ctx, name string, arg interface{}, timeout time.Duration, onLine func(line []byte), env ...string) ChildResult {
 	childSeq.Lock()
 	childSeq.n++
 	n := childSeq.n
@@ -155,8 +162,30 @@ func RunChild(c *Ctx, name string, arg interface{}, timeout time.Duration, env .
 	cmd := exec.Command(os.Args[0], "child", name, argf, dir)
 	cmd.Env = append(os.Environ(), env...)
 	var so, se bytes.Buffer
-	cmd.Stdout = &so
 	cmd.Stderr = &se
+	readDone := make(chan struct{})
+	if onLine == nil {
+		cmd.Stdout = &so
+		close(readDone)
+	} else {
+		pr, err := cmd.StdoutPipe()
+		if err != nil {
+			return ChildResult{Exit: -2, Stderr: []byte(err.Error())}
+		}
+		go func() {
+			defer close(readDone)
+			br := bufio.NewReaderSize(pr, 1<<20)
+			for {
+				line, err := br.ReadBytes('\n')
+				if len(line) > 0 {
+					onLine(bytes.TrimRight(line, "\n"))
+				}
+				if err != nil {
+					return
+				}
+			}
+		}()
+	}
 	t0 := time.Now()
 	r := ChildResult{}
 	if err := cmd.Start(); err != nil {
@@ -165,7 +194,7 @@ func RunChild(c *Ctx, name string, arg interface{}, timeout time.Duration, env .
 		return r
 	}
 	done := make(chan error, 1)
-	go func() { done <- cmd.Wait() }()
+	go func() { <-readDone; done <- cmd.Wait() }()
 	select {
 	case err := <-done:
 		r.Exit = exitCode(err)
@@ -239,9 +268,14 @@ func Tail(b []byte, n int) string {
 func ChildCase(idx int, desc interface{}) {
 	// every so often publish a snapshot of what was observed so far: a later death must not lose it
 	childCases++
-	if curChildRes != nil && childCases%20 == 0 {
+	if curChildRes != nil && childCases >= nextSnap {
 		os.Stdout.Write([]byte("@SNAP "))
 		curChildRes.WriteChild("-")
+		if nextSnap < 200 {
+			nextSnap += 20
+		} else {
+			nextSnap += nextSnap / 4 // a snapshot carries everything seen so far: keep their number logarithmic
+		}
 	}
 	b, _ := json.Marshal(desc)
 	os.Stdout.Write([]byte(fmt.Sprintf("@CASE %d %s\n", idx, b)))
@@ -249,6 +283,7 @@ func ChildCase(idx int, desc interface{}) {
 
 var curChildRes *res.R
 var childCases int
+var nextSnap = 20
 
 // ChildDone prints the child's mergeable result.
 // ChildResult returns a result collector for a child that streams violations as they happen.
@@ -288,7 +323,6 @@ func RunBatch(c *Ctx, name string, start, end int, extra interface{}, timeout ti
 	eb, _ := json.Marshal(extra)
 	for start < end {
 		arg := BatchArg{Seed: c.Seed, Tier: c.Tier, Start: start, End: end, Extra: eb}
-		cr := RunChild(c, name, arg, timeout, env...)
 		lastIdx := -1
 		var lastDesc json.RawMessage
 		gotResult := false
@@ -296,37 +330,37 @@ func RunBatch(c *Ctx, name string, start, end int, extra interface{}, timeout ti
 		var streamed []res.Violation
 		var lastSnap []byte
 		snapIdx := start - 1
-		for _, line := range bytes.Split(cr.Stdout, []byte("\n")) {
+		cr := RunChildLines(c, name, arg, timeout, func(line []byte) {
 			if bytes.HasPrefix(line, []byte("@V ")) {
 				var v res.Violation
 				if json.Unmarshal(line[3:], &v) == nil {
 					streamed = append(streamed, v)
 				}
-				continue
+				return
 			}
 			if bytes.HasPrefix(line, []byte("@SNAP ")) {
-				lastSnap = append([]byte{}, line[6:]...)
+				lastSnap = append(lastSnap[:0], line[6:]...)
 				streamed = streamed[:0] // violations so far are inside the snapshot
 				snapIdx = lastIdx
-				continue
+				return
 			}
 			if bytes.HasPrefix(line, []byte("@YIELD ")) {
 				yieldAt, _ = strconv.Atoi(string(bytes.TrimSpace(line[7:])))
-				continue
+				return
 			}
 			if bytes.HasPrefix(line, []byte("@CASE ")) {
 				rest := line[6:]
 				sp := bytes.IndexByte(rest, ' ')
 				if sp > 0 {
 					lastIdx, _ = strconv.Atoi(string(rest[:sp]))
-					lastDesc = append(json.RawMessage{}, rest[sp+1:]...)
+					lastDesc = append(lastDesc[:0], rest[sp+1:]...)
 				}
 			} else if bytes.HasPrefix(line, []byte("@RESULT ")) {
 				if err := c.R.MergeBytes(line[8:]); err == nil {
 					gotResult = true
 				}
 			}
-		}
+		}, env...)
 		if gotResult && cr.Exit == 0 {
 			if yieldAt >= 0 && yieldAt < end {
 				start = yieldAt // the child asked to be restarted (housekeeping), not a death
